@@ -26,6 +26,7 @@ PROFILES = {
 def make_profile(prop, rng, tier):
     base = PROFILES.get(prop, PROFILES['C08'])
     p = dict(base)
+    p['prop'] = prop
     p['step_w'] = dict(p['step_w'])
     for op in list(p['step_w']):
         if p['step_w'][op] < 2 and rng.random() < 0.25:
@@ -108,6 +109,13 @@ def run_generated(prop, seed, run_idx, tier, known=None):
             g.stage_n += 1
             emit({'c': 'start_stage', 'name': f"s{g.stage_n}"})
             stage_left = 1 if profile.get('stage_single_remove') and rng.random() < 0.6 else rng.randint(1, 4)
+            if rng.random() < 0.12:
+                # an empty stage: closed at once, or left open (bake closes it); its name stays taken either way
+                if rng.random() < 0.6:
+                    emit({'c': 'end_stage', 'name': f"s{g.stage_n}"})
+                    if rng.random() < 0.5:
+                        emit({'c': 'start_stage', 'name': f"s{g.stage_n}"})      # must be refused: the name is taken
+                    continue
         prefer = 'remove' if (profile.get('stage_single_remove') and lc.open_stage is not None and stage_left == 1 and rng.random() < 0.8) else None
         c = g.gen_step(prefer)
         if c is None:
